@@ -50,8 +50,14 @@ def run(ctx):
       for lag in lags:
         cfg = dict(strategy=st, lag=lag, buckets=wm.buckets)
         r_ops, _ = cachesys.gen_workload(ctx.rng, nmetrics=2, nts=2, nstores=ctx.pick(3, 5), ndrains=0, nqueries=0)
+        # stop-placement sweeps: the writer runs a steps, then all stores, then the stop (and the
+        # same with the stores first): every program point of the writer loop is a stop position
+        stride = ctx.pick(2, 1)
+        segs = [[('W', a), ('R', None), ('S', None), ('W', None)] for a in range(0, ctx.pick(70, 140), stride)]
+        segs += [[('R', None), ('W', a), ('S', None), ('W', None)] for a in range(0, ctx.pick(90, 260), stride + 1)]
+        segs += [[('W', a), ('R', None), ('S', 2), ('W', 3), ('S', None), ('W', None)] for a in range(0, 40, 3)]
         n = writercheck.explore(ctx, wm, cfg, r_ops, set(), ('m1', 'm2'), bound=ctx.pick(1, 2),
-                                nrandom=ctx.pick(15, 300), limit=ctx.pick(90, 4000), sink=col)
+                                nrandom=ctx.pick(10, 300), limit=ctx.pick(40, 4000), sink=col, segments=segs)
         ctx.evaluations += n
   verdicts = writersys.judge(ctx, col.traces, 'C04 traces')
   for i, tr in enumerate(col.traces):
